@@ -50,6 +50,9 @@ Construct ==
   \*  else than CSS defines, the harness has put the CSS meaning there and says so - C07's clause, a NOTE for the others)
   /\ fails' = fails \cup (IF Ev.valid THEN CompFails(Ev) \cup ReadableFails(Ev) ELSE {"X_ConstructInvalid"})
                      \cup (IF Ev.valid /\ Ev.cssOverride # <<>> THEN {"C07_GivenColourMisread"} ELSE {})
+                     \* a colour written in one of the DOCUMENTED spellings (the generator says so) is a colour: a pair that is
+                     \* refused can return nothing in the documented counterpart of its format
+                     \cup (IF ~Ev.valid /\ Ev.mustParse /\ OutFormat(Ev.spell) # "other" THEN {"C06_OutFormat", "C07_DocumentedSpellingRejected"} ELSE {})
   /\ i' = i + 1 /\ UNCHANGED <<tid, seen, incon, nt>>
 
 \* dE bound with guard band: "LE", "GT" or "CLOSE"
